@@ -29,6 +29,8 @@ CONSTANTS
     MB,             \* the enlargement margin (kB) the code adds (1000)
     MaxFaults,      \* bound on injected faults per behaviour
     MaxReqLen,      \* bound on keys per request
+    Chunked,     \* TRUE: workers of a parallel request interleave freely and may be abandoned
+                    \* (ThreadPool with several chunks); FALSE: one chunk = sequential order
     Variant         \* "fixed" | "head"
 
 ASSUME Variant \in {"fixed", "noprotect", "head"}
@@ -194,7 +196,7 @@ RaisingFailure(k) == dl[k].s = "io" \/ (dl[k].s = "nf" /\ ~sess.am)
 MissIdx == DOMAIN req.misses
 \* the position (in miss order) of the first failure that makes the request raise, 0 if none
 FirstRaising == LET S == {i \in MissIdx : RaisingFailure(req.misses[i])} IN IF S = {} THEN 0 ELSE Min(S)
-Parallel == sess.par /\ Len(req.misses) > 1
+Parallel == Chunked /\ sess.par /\ Len(req.misses) > 1
 
 \* which miss may take its next step
 MayStep(i) ==
